@@ -566,6 +566,51 @@ class Facts:
         return [v['name'] for v in self.adt(path)['variants']]
 
 
+def dir_hash(d):
+    h = hashlib.sha256()
+    for dp, dn, fn in sorted(os.walk(d)):
+        dn[:] = sorted(x for x in dn if x not in ('target', '.git'))
+        for f in sorted(fn):
+            if f == 'Cargo.lock':
+                continue
+            p = os.path.join(dp, f)
+            h.update(p.encode()); h.update(b'\0')
+            with open(p, 'rb') as fh:
+                h.update(fh.read())
+    return h.hexdigest()[:16]
+
+def load_witness(name, features='-', repo=REPO):
+    """compile the witness crate /verif/witness/<name> (which depends on /repo by path) under the driver
+    and load the facts of the witness crate itself"""
+    wdir = os.path.join(VERIF, 'witness', name)
+    th = tree_hash(repo)
+    d = os.path.join(CACHE, th)
+    os.makedirs(d, exist_ok=True)
+    p = os.path.join(d, 'witness-%s-%s-%s.json' % (name, cfg_key(features), dir_hash(wdir)))
+    if not os.path.exists(p):
+        lock = open(os.path.join(CACHE, '.lock'), 'w')
+        fcntl.flock(lock, fcntl.LOCK_EX)
+        try:
+            if not os.path.exists(p):
+                lockfile = os.path.join(repo, 'Cargo.lock')
+                if os.path.exists(lockfile):
+                    shutil.copy(lockfile, os.path.join(wdir, 'Cargo.lock'))
+                tmp = p + '.dir.%d' % os.getpid()
+                shutil.rmtree(tmp, ignore_errors=True)
+                env = dict(os.environ); env['MIRFACTS_CRATES'] = name
+                pr = subprocess.run([os.path.join(VERIF, 'tools/extract.sh'), tmp, name, features, wdir],
+                                    stdout=subprocess.PIPE, stderr=subprocess.STDOUT, env=env)
+                fs = glob.glob(os.path.join(tmp, name + '.*.json'))
+                if pr.returncode != 0 or len(fs) != 1:
+                    out = pr.stdout.decode(errors='replace')
+                    shutil.rmtree(tmp, ignore_errors=True)
+                    raise Broken('witness crate %s does not compile against the current /repo (rc=%s):\n%s' % (name, pr.returncode, out[-3000:]))
+                os.replace(fs[0], p)
+                shutil.rmtree(tmp, ignore_errors=True)
+        finally:
+            fcntl.flock(lock, fcntl.LOCK_UN); lock.close()
+    return Facts(p, 'witness:' + name)
+
 def load(cfgs, repo=REPO):
     paths = ensure_facts(cfgs, repo)
     return {c: Facts(p, c) for c, p in paths.items()}
